@@ -420,7 +420,7 @@ def table_cmp(prog, env):
                 b = (kb[0], kb[1], vtok("v2", w["v2"]) if kb[1] != "U" else None)
                 run = Run(prog, env)
                 status, val = run.call(BOUND_CMP, [Ptr(Cell(env.bound(*a))), Ptr(Cell(env.bound(*b)))])
-                row = {"cell": cell_id(a, b), "status": status, "sig": path_sig(run.interp)}
+                row = {"cell": cell_id(a, b), "status": status, "sig": path_sig(run.interp), "cov": coverage(run.interp)}
                 if status == "ok":
                     ri = ordering_to_int(val)
                     row["result"] = ri
@@ -447,7 +447,7 @@ def table_new(prog, env):
                 run = Run(prog, env)
                 status, val = run.call("range::BoundSet::new", [env.bound(*a), env.bound(*b)])
                 row = {"key": "lower=%s upper=%s order:%s" % (bstr(a), bstr(b), order_str(w)), "status": status,
-                       "sig": path_sig(run.interp), "cells": run.cells, "problems": []}
+                       "sig": path_sig(run.interp), "cells": run.cells, "problems": [], "cov": coverage(run.interp)}
                 sp = run.interp.ret_span.get("range::BoundSet::new")
                 row["ret"] = prog.span_str(sp) if sp else None
                 exp_some = cut(a) < cut(b)
